@@ -13,7 +13,7 @@
 //   2 (schedule) obs::sched_restart (engine/obs_restart.hpp) of the restarted Schedule equals that of the
 //                original Schedule at n and every later report step.
 //
-// Case string (= --replay argument):  M:<13 model digits, '.'-separated> U:<0..3> F:<0|1> X:<0|1> D:<0|1> N:<1..3>
+// Case string (= --replay argument):  M:<18 model digits, '.'-separated> U:<0..3> F:<0|1> X:<0|1> D:<0|1> N:<1..3>
 #include "vf.hpp"
 #include "canon.hpp"
 #include "obs.hpp"
@@ -58,9 +58,9 @@ static const char* USYS[4] = {"METRIC", "FIELD", "LAB", "PVT-M"};
 
 // ------------------------------------------------------------------ model ---
 // Every dimension: 0 = the full-featured default, other values = one deviation.
-enum Dim { D_MSW, D_UDQ, D_ACT, D_P1ST, D_CSHUT, D_INJ, D_PCTL, D_GCTL, D_EFAC, D_NET, D_WLIST, D_HIST, D_DYN, NDIM };
-static const int DIM_N[NDIM] = {2, 3, 3, 3, 2, 3, 5, 4, 3, 2, 2, 2, 3};
-static const char* DIM_NAME[NDIM] = {"msw", "udq", "actionx", "P1status", "connshut", "I1kind", "P1ctl", "groupctl", "efac", "network", "wlist", "wconhist", "dynstate"};
+enum Dim { D_MSW, D_UDQ, D_ACT, D_P1ST, D_CSHUT, D_INJ, D_PCTL, D_GCTL, D_EFAC, D_NET, D_WLIST, D_HIST, D_DYN, D_CONN, D_WSPEC, D_WGC, D_VFP, D_TREE, NDIM };
+static const int DIM_N[NDIM] = {4, 3, 4, 3, 2, 3, 5, 4, 3, 2, 2, 2, 3, 4, 2, 2, 2, 2};
+static const char* DIM_NAME[NDIM] = {"msw", "udq", "actionx", "P1status", "connshut", "I1kind", "P1ctl", "groupctl", "efac", "network", "wlist", "wconhist", "dynstate", "P1conn", "welspecs", "wgrupcon", "vfp", "gruptree"};
 struct Model {
     int d[NDIM] = {0};
     std::string str() const { std::string s; for (int i = 0; i < NDIM; ++i) s += (i ? "." : "") + std::to_string(d[i]); return s; }
@@ -111,9 +111,14 @@ static std::string schedule_text(const Model& M, int restart_n) {
     s += "RPTRST\n BASIC=2 /\n";
     // ---- block 0
     s += "GRUPTREE\n 'G1' 'FIELD' /\n 'G2' 'FIELD' /\n 'G3' 'G2' /\n/\n";
-    s += std::string("WELSPECS\n 'P1' 'G1' 1 1 2005 OIL /\n 'P2' 'G1' 2 1 1* OIL /\n 'P3' 'G1' 3 1 1* OIL /\n 'I1' 'G3' 3 3 2010 ") + (d[D_INJ] == 1 ? "GAS" : "WATER") + " /\n/\n";
-    s += "COMPDAT\n 'P1' 1 1 1 3 OPEN 1* 1* 0.2 /\n 'P2' 2 1 1 2 OPEN 1* 1* 0.2 /\n 'P3' 3 1 1 2 OPEN 1* 12.5 0.25 /\n 'I1' 3 3 1 2 OPEN 1* 25.0 0.2 3* Z /\n/\n";
-    if (d[D_MSW] == 0) s += "WELSEGS\n 'P2' 2005 0 1* INC HF- /\n 2 2 1 1 10 10 0.2 0.0001 /\n 3 3 2 2 10 5 0.15 0.0002 /\n/\nCOMPSEGS\n 'P2' /\n 2 1 1 1 0 10 /\n 2 1 2 2 10 20 /\n/\n";
+    s += std::string("WELSPECS\n 'P1' 'G1' 1 1 2005 OIL ") + (d[D_WSPEC] == 1 ? "50.0 STD STOP NO " : "") + "/\n" + std::string(" 'P2' 'G1' 2 1 1* OIL /\n 'P3' 'G1' 3 1 1* OIL /\n 'I1' 'G3' 3 3 2010 ") + (d[D_INJ] == 1 ? "GAS" : "WATER") + " /\n/\n";
+    s += std::string("COMPDAT\n") + (d[D_CONN] == 1 ? " 'P1' 1 1 1 3 OPEN 1* 12.5 0.2 1000 1.5 1* X /\n" : " 'P1' 1 1 1 3 OPEN 1* 1* 0.2 /\n") + " 'P2' 2 1 1 2 OPEN 1* 1* 0.2 /\n 'P3' 3 1 1 2 OPEN 1* 12.5 0.25 /\n 'I1' 3 3 1 2 OPEN 1* 25.0 0.2 3* Z /\n/\n";
+    if (d[D_MSW] != 1) s += "WELSEGS\n 'P2' 2005 0 1* INC HF- /\n 2 2 1 1 10 10 0.2 0.0001 /\n 3 3 2 2 10 5 0.15 0.0002 /\n/\nCOMPSEGS\n 'P2' /\n 2 1 1 1 0 10 /\n 2 1 2 2 10 20 /\n/\n";
+    if (d[D_MSW] == 2) s += "WSEGVALV\n 'P2' 3 0.7 0.002 /\n/\n";
+    if (d[D_MSW] == 3) s += "WSEGSICD\n 'P2' 3 3 0.001 1.2 /\n/\n";
+    if (d[D_CONN] == 3) s += "COMPLUMP\n 'P1' 1 1 1 2 1 /\n 'P1' 1 1 3 3 2 /\n/\n";
+    if (d[D_VFP] == 1) s += "VFPPROD\n 3 2000 OIL WCT GOR THP GRAT 1* BHP /\n 1 100 /\n 10 50 /\n 0 0.5 /\n 100 200 /\n 0 /\n 1 1 1 1 100 120 /\n 1 1 2 1 101 121 /\n 1 2 1 1 102 122 /\n 1 2 2 1 103 123 /\n 2 1 1 1 104 124 /\n 2 1 2 1 105 125 /\n 2 2 1 1 106 126 /\n 2 2 2 1 107 127 /\n";
+    if (d[D_WGC] == 1) s += "WGRUPCON\n 'P1' YES 1.5 OIL 0.5 /\n 'P2' NO /\n/\n";
     if (d[D_HIST] == 0) s += "WCONHIST\n 'P1' OPEN ORAT 90 10 1000 /\n 'P2' OPEN ORAT 80 20 2000 /\n/\n";
     else s += "WCONPROD\n 'P1' OPEN ORAT 90 4* 40 /\n 'P2' OPEN ORAT 80 4* 45 /\n/\n";
     s += "WCONPROD\n 'P3' STOP ORAT 30 4* 35 /\n/\n";
@@ -123,8 +128,8 @@ static std::string schedule_text(const Model& M, int restart_n) {
     if (d[D_EFAC] == 0) s += "WEFAC\n 'P1' 0.8 /\n/\nGEFAC\n 'G1' 0.9 /\n/\n";
     else if (d[D_EFAC] == 2) s += "WEFAC\n 'P1' 0.5 /\n 'I1' 0.75 /\n/\nGEFAC\n 'G1' 0.25 /\n 'G3' 0.5 /\n/\n";
     if (d[D_WLIST] == 0) s += "WLIST\n '*L1' NEW P1 P2 /\n '*L2' NEW I1 /\n/\n";
-    if (d[D_UDQ] != 2) s += "UDQ\n ASSIGN WUOR 95 /\n ASSIGN FUX 3.5 /\n DEFINE FUY FOPR * 2 + 1 /\n DEFINE WUZ WOPR + WWPR /\n UNITS WUOR SM3/DAY /\n/\n";
-    if (d[D_ACT] != 2) s += "ACTIONX\n A1 2 /\n WOPR 'P1' > 0 AND /\n FWCT < 0.95 /\n/\nWELTARG\n '?' BHP 60 /\n/\nENDACTIO\n";
+    if (d[D_UDQ] != 2) s += "UDQ\n ASSIGN WUOR 95 /\n ASSIGN FUX 3.5 /\n ASSIGN FUGO 1000 /\n ASSIGN WUIR 200 /\n DEFINE GUY GOPR * 2 /\n DEFINE FUY FOPR * 2 + 1 /\n DEFINE WUZ WOPR + WWPR /\n UNITS WUOR SM3/DAY /\n/\n";
+    if (d[D_ACT] != 2) s += std::string("ACTIONX\n A1 2 /\n WOPR 'P1' > 0 AND /\n ") + (d[D_ACT] == 3 ? "FWCT > 0.0000025" : "FWCT < 0.95") + " /\n/\nWELTARG\n '?' BHP 60 /\n/\nENDACTIO\n";
     if (d[D_NET] == 0) s += "BRANPROP\n 'G1' 'FIELD' 9999 /\n 'G2' 'FIELD' 9999 /\n/\nNODEPROP\n 'FIELD' 20 /\n 'G1' 1* NO /\n 'G2' 1* NO /\n/\n";
     s += std::string("DATES\n 1 ") + MONTHS[0] + " 2020 /\n/\n";
     // ---- block 1
@@ -137,14 +142,16 @@ static std::string schedule_text(const Model& M, int restart_n) {
         case 3: s += "WCONPROD\n 'P1' OPEN GRUP " + orat + " 4* 50 /\n"; break;
         default: s += "WCONPROD\n 'P1' OPEN RESV " + orat + " 3* 300 50 /\n"; break;
         }
-        s += " 'P2' OPEN ORAT 85 4* 55 /\n/\n";
+        s += std::string(" 'P2' OPEN ORAT 85 4* 55 ") + (d[D_VFP] == 1 ? "15 3 0.5 " : "") + "/\n/\n";
+        if (d[D_INJ] == 0 && d[D_UDQ] == 0) s += "WCONINJE\n 'I1' WATER OPEN RATE WUIR 1* 500 /\n/\n";
     }
     switch (d[D_GCTL]) {
-    case 0: s += "GCONPROD\n 'G1' ORAT 1000 2* 1500 RATE /\n/\nGCONINJE\n 'G2' WATER RATE 500 /\n/\n"; break;
+    case 0: s += std::string("GCONPROD\n 'G1' ORAT ") + (d[D_UDQ] == 0 ? "FUGO" : "1000") + " 2* 1500 RATE /\n/\nGCONINJE\n 'G2' WATER RATE 500 /\n/\n"; break;
     case 1: break;
     case 2: s += "GCONPROD\n 'G1' LRAT 1000 2* 1500 RATE YES 50 OIL /\n/\nGCONINJE\n 'G2' WATER VREP 3* 0.875 /\n/\n"; break;
     default: s += "GCONPROD\n 'FIELD' ORAT 3000 /\n 'G1' GRAT 2* 50000 /\n/\nGCONINJE\n 'G3' GAS REIN 2* 0.75 /\n/\n"; break;
     }
+    if (d[D_CONN] == 2) s += "WPIMULT\n 'P1' 2.0 /\n/\n";
     if (d[D_CSHUT] == 0) s += "WELOPEN\n 'P1' SHUT 0 0 2 /\n/\n";
     if (d[D_P1ST] == 1) s += "WELOPEN\n 'P1' SHUT /\n/\n";
     if (d[D_P1ST] == 2) s += "WELOPEN\n 'P1' STOP /\n/\n";
@@ -157,6 +164,7 @@ static std::string schedule_text(const Model& M, int restart_n) {
     s += std::string("DATES\n 1 ") + MONTHS[2] + " 2020 /\n/\n";
     // ---- block 3
     s += "WELOPEN\n 'P3' OPEN /\n/\n";
+    if (d[D_TREE] == 1) s += "GRUPTREE\n 'G3' 'FIELD' /\n/\n";
     if (d[D_P1ST] != 0) s += "WELOPEN\n 'P1' OPEN /\n/\n";
     if (d[D_CSHUT] == 0) s += "WELOPEN\n 'P1' OPEN 0 0 2 /\n/\n";
     if (d[D_EFAC] != 1) s += "WEFAC\n 'P1' 0.625 /\n/\n";
@@ -343,14 +351,20 @@ static Outcome run_case(const Case& c) {
         sched = std::make_unique<Schedule>(deck, es, g_python);
         if ((int)sched->size() != NSTEPS + 1) throw std::logic_error("model has " + std::to_string(sched->size()) + " report steps");
         Action::State astate;
-        const bool action_runs = M.d[D_ACT] == 0 && n >= 2;
+        const bool action_runs = (M.d[D_ACT] == 0 || M.d[D_ACT] == 3) && n >= 2;
         if (action_runs) {
             // the action triggered at the end of the time step that reaches report step 1, matching well P1
             const auto& act = (*sched)[1].actions()["A1"];
             auto res = Action::Result{true}.wells(std::vector<std::string>{"P1"});
             sched->applyAction(1, act, res.matches(), std::unordered_map<std::string, double>{});
             astate.add_run((*sched)[1].actions()["A1"], sched->simTime(1), res);
+            if (n >= 3) {       // ... and a second time (max_run = 2) one report step later
+                sched->applyAction(2, (*sched)[2].actions()["A1"], res.matches(), std::unordered_map<std::string, double>{});
+                astate.add_run((*sched)[2].actions()["A1"], sched->simTime(2), res);
+            }
         }
+        Action::State astate_after_1;      // the record as it stood when report step 2 was written
+        if (action_runs) astate_after_1.add_run((*sched)[1].actions()["A1"], sched->simTime(1), Action::Result{true}.wells(std::vector<std::string>{"P1"}));
         stage = "summary-eval";
         SummaryConfig sc(deck, *sched, es.fieldProps(), es.aquifer());
         const auto& grid = es.getInputGrid();
@@ -361,20 +375,23 @@ static Outcome run_case(const Case& c) {
         data::Wells wells; data::GroupAndNetworkValues grp;
         {
             EclipseIO io(es, grid, *sched, sc);
+            const int nact = (int)grid.getNumActive();
             for (int k = 1; k <= n; ++k) {
+                stage = "summary-eval";
                 wells = make_wells(*sched, M, k);
                 grp = make_groups(*sched, k);
                 io.summary().eval(st, k, sched->seconds(k), wells, {}, grp, {}, {}, {});
                 const auto& uq = (*sched)[k - 1].udq();
                 if (uq.size() > 0) uq.eval(k - 1, sched->wellMatcher(k - 1), sched->segmentMatcherFactory(k - 1), []() { return std::unique_ptr<RegionSetMatcher>{}; }, st, udq);
+                // every report step is written (a unified file then holds k = 1..n, the restart has to pick n);
+                // the action has run once report step 1 is complete
+                stage = "save";
+                data::Solution sol;
+                for (const auto& a : ARRS) { std::vector<double> v(nact); for (int i = 0; i < nact; ++i) v[i] = arr_value(a, i, k); sol.insert(a.name, a.m, v, a.target); }
+                RestartValue rv(sol, wells, grp, {});
+                for (const auto& x : EXTRAS) { std::vector<double> v(x.size); for (int i = 0; i < x.size; ++i) v[i] = extra_value(x, i, k); rv.addExtra(x.name, x.m, v); }
+                io.writeTimeStep(k >= 3 ? astate : k == 2 ? astate_after_1 : Action::State{}, wtest, st, udq, k, false, sched->seconds(k), rv, c.dbl != 0);
             }
-            stage = "save";
-            const int nact = (int)grid.getNumActive();
-            data::Solution sol;
-            for (const auto& a : ARRS) { std::vector<double> v(nact); for (int i = 0; i < nact; ++i) v[i] = arr_value(a, i, n); sol.insert(a.name, a.m, v, a.target); }
-            RestartValue rv(sol, wells, grp, {});
-            for (const auto& x : EXTRAS) { std::vector<double> v(x.size); for (int i = 0; i < x.size; ++i) v[i] = extra_value(x, i, n); rv.addExtra(x.name, x.m, v); }
-            io.writeTimeStep(astate, wtest, st, udq, n, false, sched->seconds(n), rv, c.dbl != 0);
         }
         // ------------------------------------------------ restarted run
         stage = "restart-deck";
@@ -491,16 +508,23 @@ static Outcome run_case(const Case& c) {
         }
         // UDQ values
         if (M.d[D_UDQ] != 2) {
-            for (const char* f : {"FUX", "FUY"}) {
+            for (const char* f : {"FUX", "FUGO", "FUY"}) {
                 const bool h1 = udq.has(f), h2 = udq2.has(f);
                 if (h1 != h2) { fail(o, "dyn:udq.field.defined", std::string(f) + ": UDQState has it " + (h1 ? "before" : "after") + " only"); continue; }
                 if (h1) cmp_num(o, "dyn:udq.field.value", f, udq.get(f), udq2.get(f), TOL_SAME);
                 if (st.has(f)) { if (!st2.has(f)) fail(o, "dyn:udq.field.summary", std::string(f) + " missing in the loaded SummaryState"); else cmp_num(o, "dyn:udq.field.summary", f, st.get(f), st2.get(f), TOL_SAME); }
             }
-            for (const char* f : {"WUOR", "WUZ"}) for (const auto& wn : sched->wellNames(n - 1)) {
+            for (const char* f : {"GUY"}) for (const auto& gn : sched->groupNames(n - 1)) {
+                const bool h1 = udq.has_group_var(gn, f), h2 = udq2.has_group_var(gn, f);
+                const std::string K = std::string(f) + ":" + gn;
+                if (h1 != h2) { fail(o, gn == "FIELD" ? "dyn:udq.group.defined:FIELD-node" : "dyn:udq.group.defined", K + ": UDQState has it " + (h1 ? "before" : "after") + " only (value " + vf::fmt17(h1 ? udq.get_group_var(gn, f) : udq2.get_group_var(gn, f)) + ")"); continue; }
+                if (h1) cmp_num(o, "dyn:udq.group.value", K, udq.get_group_var(gn, f), udq2.get_group_var(gn, f), TOL_SAME);
+                if (st.has_group_var(gn, f)) { if (!st2.has_group_var(gn, f)) fail(o, "dyn:udq.group.summary", K + " missing in the loaded SummaryState"); else cmp_num(o, "dyn:udq.group.summary", K, st.get_group_var(gn, f), st2.get_group_var(gn, f), TOL_SAME); }
+            }
+            for (const char* f : {"WUOR", "WUIR", "WUZ"}) for (const auto& wn : sched->wellNames(n - 1)) {
                 const bool h1 = udq.has_well_var(wn, f), h2 = udq2.has_well_var(wn, f);
                 const std::string K = std::string(f) + ":" + wn;
-                if (h1 != h2) { fail(o, "dyn:udq.well.defined", K + ": UDQState has it " + (h1 ? "before" : "after") + " only"); continue; }
+                if (h1 != h2) { fail(o, "dyn:udq.well.defined", K + ": UDQState has it " + (h1 ? "before" : "after") + " only (value " + vf::fmt17(h1 ? udq.get_well_var(wn, f) : udq2.get_well_var(wn, f)) + ")"); continue; }
                 if (h1) cmp_num(o, "dyn:udq.well.value", K, udq.get_well_var(wn, f), udq2.get_well_var(wn, f), TOL_SAME);
                 if (st.has_well_var(wn, f)) { if (!st2.has_well_var(wn, f)) fail(o, "dyn:udq.well.summary", K + " missing in the loaded SummaryState"); else cmp_num(o, "dyn:udq.well.summary", K, st.get_well_var(wn, f), st2.get_well_var(wn, f), TOL_SAME); }
             }
@@ -607,11 +631,12 @@ int main(int argc, char** argv) {
 
     const int budget = run.thorough() ? 2 : 1;
     run.rule = "model: 3x3x3 grid with an inactive cell, groups FIELD<-G1,G2<-G3, wells P1 (producer, ORAT+BHP, UDA target), P2 (multi-segment producer, 3 segments / 2 branches), "
-               "P3 (STOP, later SHUT, later OPEN), I1 (water injector), I2 (gas injector introduced at step 2), WCONHIST period, WEFAC/GEFAC, GCONPROD/GCONINJE, WLIST, UDQ ASSIGN+DEFINE, "
-               "ACTIONX run at step 1, BRANPROP/NODEPROP network, WELOPEN on a connection, 4 report steps; deviations: each of " + std::to_string((int)NDIM) + " features removed/varied (alternatives per feature: ";
+               "P3 (STOP with cross-flow, later SHUT, later OPEN), I1 (water injector, UDA rate), I2 (gas injector introduced at step 2), WCONHIST period, WEFAC/GEFAC, GCONPROD (UDA target)/GCONINJE, WLIST, "
+               "UDQ ASSIGN+DEFINE at field/group/well level, ACTIONX run at report step 1 (its WELTARG applied with Schedule::applyAction), BRANPROP/NODEPROP network, WELOPEN on a connection, "
+               "later blocks with WELSPECS/COMPDAT/WELTARG/WELOPEN/WEFAC/GCONPROD/WCONPROD acting on the restored objects, 4 report steps; deviations: each of " + std::to_string((int)NDIM) + " features removed/varied (alternatives per feature: ";
     for (int i = 0; i < NDIM; ++i) run.rule += std::string(i ? "," : "") + DIM_NAME[i] + ":" + std::to_string(DIM_N[i]);
     run.rule += "), every model with <= " + std::to_string(budget) + " deviations x complete product {METRIC,FIELD,LAB,PVT-M} x FMTOUT{0,1} x UNIFOUT{0,1} x write_double{0,1} x restart step n{1,2,3}; "
-                "dynamic state = fingerprint values (distinct dyadic multiple per quantity/well/connection/segment/step) passed through the real Summary::eval and UDQConfig::eval for steps 1..n; "
+                "dynamic state = fingerprint values (distinct dyadic multiple per quantity/well/connection/segment/step) passed through the real Summary::eval and UDQConfig::eval for steps 1..n, every report step 1..n written with EclipseIO::writeTimeStep; "
                 "oracle 1: loaded solution/extra arrays, rates/bhp/thp/active control of wells OPEN in the schedule state the file describes, their connection rates/pressures, segment rates/pressures, "
                 "W/G/F cumulative totals, UDQState + summary UDQ values, ACTIONX run count/time equal the saved ones (identical for untouched DOUB/INTE, 1e-14 rel after a unit-conversion pair, 1.2e-7 rel for REAL); "
                 "oracle 2: obs::sched_restart query list equal between Schedule(deck) and Schedule(deck+RESTART+SKIPREST, rst_state) at n..4 (REAL-stored quantities to 1.2e-7 rel)";
@@ -619,9 +644,10 @@ int main(int argc, char** argv) {
         "a restart file written at report step n describes schedule state n-1 (sim_step); 'flowing well' = Schedule status OPEN in that state",
         "DOUB values that pass from_si at save and to_si at load are compared to 1e-14 relative (rounding of the conversion pair), segment phase rates to 1e-12 (stored as total flow + two fractions)",
         "well temperature is not in the statement's list and is not restored by RestartIO::load (set to 0): not compared",
-        "connection CF/Kh are compared by the schedule oracle, not as dynamic state",
+        "connection CF/Kh are compared by the schedule oracle, not as dynamic state; Connection::wpimult() (accumulated WPIMULT bookkeeping) is not compared, CF carries the multiplier",
         "group/network dynamic values (active group control, node pressures, guide rates) are not listed in the statement: handed to the writer, not compared",
-        "ACTIONX runs at report step 1; for n = 1 the action is still pending (an action triggered while report step n itself is written acts on schedule state n, which the file does not describe)",
+        "solution arrays are REAL/DOUB (an INTE solution array cannot be requested back through a RestartKey)",
+        "ACTIONX runs at report step 1 and again at report step 2; for n = 1 the action is still pending (an action triggered while report step n itself is written acts on schedule state n, which the file does not describe)",
         "same numeric deck in every unit system (a different physical model per system)",
         "a FORMATTED restart file prints REAL with 8 and DOUB with 14 significant digits: tolerances 2.5e-7 / 1e-13 there",
         "requested control mode of an open well: the file stores the ACTIVE control in its single slot; the restarted schedule may answer with the saved active control instead of the requested one (counted, not a violation); the set of controls and every limit/target is compared",
